@@ -64,7 +64,7 @@ var c03PanicAllowed = map[string]string{
 func c03(p *Prog, r *Report) {
 	r.Explanation = "Range proving over SSA (ranges.go): in every pat-go function reachable from a peer-bytes entry point, each slice expression (0 <= lo <= hi <= len, never cap), index (0 <= i < len / array length), make (0 <= n, n bounded by a constant or an input length), non-constant division, slice-to-array conversion and documented panicking precondition of a callee is a linear obligation over symbolic atoms. It is discharged by Fourier-Motzkin entailment from: dominating branch conditions, SSA definitions (slice lengths, conversions that provably fit), loop induction, reviewed post-conditions (checked cryptobyte reads, quicwire.ConsumeVarint, positive configuration getters), success facts of in-module callees translated to the caller, and product/quotient monotonicity. Plus: every cryptobyte read in a decoder is checked, every loop matches a terminating shape, the scope has no recursion, explicit panics are unreachable or documented preconditions on own keys, unchecked type assertions cannot fail by types. Functions of the Ed25519 arithmetic that are syntactically the standard library's (C14) are discharged by that identity."
 	r.NotDecided = "panics, non-termination or allocation inside dependencies on well-typed input; nil dereference of caller-supplied nil pointers; stack depth; overflow of machine-word arithmetic on lengths (assumed absent: all operands are bounded by slice lengths)."
-	r.Assumptions = append(r.Assumptions, "dependencies do not panic on well-typed arguments except for the listed preconditions", "configuration getters of the dependencies (element/scalar/key sizes) return positive values below 2^16", "lengths are below 2^48", "objects are built by their constructors (documented type invariants of Scalar and Point)")
+	r.Assumptions = append(r.Assumptions, "dependencies do not panic on well-typed arguments except for the listed preconditions", "configuration getters of the dependencies (element/scalar/key sizes) return positive values below 2^16", "lengths are below 2^48", "objects are built by their constructors (documented type invariants of Scalar and Point)", "a request decoder that accepted b holds a value whose encoding is no longer than b (decided by C04's layout agreement; used as len(x.Marshal()) <= len(b) behind x.Unmarshal(b) == true)")
 	r.Trusted = append(r.Trusted, "go/ssa dominators, natural loops", "ranges.go (linear forms, Fourier-Motzkin)", "post-condition and precondition tables (printed)", "C14 reference identity for matched arithmetic functions")
 
 	const R1 = "C03.bounds-and-allocation"
